@@ -360,6 +360,11 @@ var c01Positions = []struct {
 		return []ref.Node{&ref.CallT{Target: "t.show", NameSrc: ".show", Data: e, SelfClose: true}}
 	}},
 	{"css", func(e ref.Expr, v ref.Value, st ref.Status) []ref.Node {
+		// the css command is scanned up to its closing brace as text: an expression with a brace in it
+		// needs the double-brace form, which is not what this position is about
+		if strings.ContainsAny(ref.Src(e, ref.PrintStyle{}), "{}") {
+			return nil
+		}
 		return []ref.Node{&ref.Css{E: e, Suffix: "sfx"}}
 	}},
 	{"plural", func(e ref.Expr, v ref.Value, st ref.Status) []ref.Node {
